@@ -1,0 +1,42 @@
+//go:build verif
+
+package gormx
+
+// Contracts for govc (contract-based deductive verification, see /verif/DESIGN.md).
+// Comments only; compiled only with the build tag `verif`.
+
+//@ arith int
+//@ property C18
+//
+// Ghost state: stepsRun counts invocations of the supplied steps; stepsOK is true while every invoked
+// step returned nil without panicking. txBegun / txCommitted / txRolledBack are counted by the gorm
+// extern contracts.
+//@ ghost stepsRun int
+//@ ghost stepsOK bool
+//
+// The contract of a step (a caller-supplied function value): it may return nil, return an error, or
+// panic with ANY value (including a nil interface value: the module's go directive is 1.19, so
+// recover() then returns nil). It is only ever invoked while all earlier steps succeeded and the
+// transaction is still open.
+//@ func funcval fn
+//@   trusted caller-supplied step: any outcome (nil / error / panic with any value)
+//@   maypanic
+//@   requires #noearlierfailure stepsOK
+//@   requires #open txCommitted == old(txCommitted) && txRolledBack == old(txRolledBack)
+//@   ensures stepsRun == old(stepsRun) + 1 && (result != nil ==> !stepsOK) && (result == nil ==> stepsOK == old(stepsOK))
+//@   ensures_panic stepsRun == old(stepsRun) + 1 && !stepsOK
+//@   modifies stepsRun, stepsOK
+//
+//@ func Transact
+//@   requires stepsOK
+//@   ensures #empty len(fnList) == 0 ==> err == nil && txBegun == old(txBegun) && stepsRun == old(stepsRun) && txCommitted == old(txCommitted) && txRolledBack == old(txRolledBack)
+//@   ensures #begun len(fnList) > 0 ==> txBegun == old(txBegun) + 1
+//@   ensures #atmostonce txCommitted - old(txCommitted) + txRolledBack - old(txRolledBack) <= 1 && txCommitted >= old(txCommitted) && txRolledBack >= old(txRolledBack)
+//@   ensures #finished stepsRun > old(stepsRun) ==> txCommitted - old(txCommitted) + txRolledBack - old(txRolledBack) == 1
+//@   ensures #commitiff txCommitted == old(txCommitted) + 1 <==> (len(fnList) > 0 && stepsOK && stepsRun == old(stepsRun) + len(fnList))
+//@   ensures #rollback !stepsOK ==> txRolledBack == old(txRolledBack) + 1 && txCommitted == old(txCommitted) && err != nil
+//@   ensures #nilmeanscommitted len(fnList) > 0 && err == nil ==> txCommitted == old(txCommitted) + 1
+//@   ensures #beginfailure len(fnList) > 0 && stepsRun == old(stepsRun) && txCommitted == old(txCommitted) && txRolledBack == old(txRolledBack) ==> err != nil
+//@   modifies txBegun, txCommitted, txRolledBack, stepsRun, stepsOK
+//@   loop 1
+//@     invariant err == nil && stepsOK && stepsRun == old(stepsRun) + idx$1 && txCommitted == old(txCommitted) && txRolledBack == old(txRolledBack) && txBegun == old(txBegun) + 1 && txn != nil
